@@ -284,6 +284,14 @@ pub struct KCase {
     pub seed: String,
     pub error: Option<String>,
     pub lazy_ms: u64,
+    /// the backend works `delay_ms`, then yields to the scheduler this many times, then works `tail_ms` more
+    #[serde(default)]
+    pub yields: u8,
+    #[serde(default)]
+    pub tail_ms: u64,
+    /// it also yields this many times before it starts working
+    #[serde(default)]
+    pub yields_first: u8,
 }
 
 const TRAILER_MEMBERS: &[(&str, &str)] = &[
@@ -324,7 +332,19 @@ pub fn judge_keepalive(rt: &tokio::runtime::Runtime, r: &mut Report, case: &KCas
             Script::Error(Box::new(e))
         }
     };
-    let script = if case.delay_ms == 0 { inner } else { Script::Delay(case.delay_ms, Box::new(inner)) };
+    let mut script = inner;
+    if case.tail_ms > 0 {
+        script = Script::Delay(case.tail_ms, Box::new(script));
+    }
+    if case.yields > 0 {
+        script = Script::Yield(case.yields, Box::new(script));
+    }
+    if case.delay_ms > 0 {
+        script = Script::Delay(case.delay_ms, Box::new(script));
+    }
+    if case.yields_first > 0 {
+        script = Script::Yield(case.yields_first, Box::new(script));
+    }
     let log = EventLog::new();
     let svc = build_service(&SvcCfg::default(), Recorder::with_script(log.clone(), script), &log);
     let Some(hreq) = req.build() else { return };
@@ -336,7 +356,8 @@ pub fn judge_keepalive(rt: &tokio::runtime::Runtime, r: &mut Report, case: &KCas
         _ => "between-ticks",
     };
     let ticks = (case.delay_ms / 100).min(4);
-    let cell = format!("keep-alive/{dclass}/ticks{ticks}/{}/{}", if case.error.is_some() { "error" } else { "ok" }, if case.lazy_ms > 0 { "lazy" } else { "eager" });
+    let coop = if case.yields > 0 || case.yields_first > 0 { format!("/yields-{}-{}{}", case.yields_first.min(2), case.yields.min(3), if case.tail_ms > 0 { "-then-works-on" } else { "" }) } else { String::new() };
+    let cell = format!("keep-alive/{dclass}/ticks{ticks}/{}/{}{coop}", if case.error.is_some() { "error" } else { "ok" }, if case.lazy_ms > 0 { "lazy" } else { "eager" });
     let wit = |extra: Value| json!({"kind": "keepalive", "case": case, "outcome": out.to_json(), "detail": extra});
     let Some(resp) = out.response() else {
         r.violated(format!("C03/keep-alive/no-response/{}", out.class()), wit(json!({})));
@@ -379,7 +400,7 @@ pub fn judge_keepalive(rt: &tokio::runtime::Runtime, r: &mut Report, case: &KCas
         return;
     }
     // frames: whitespace only while the backend is still working
-    let done_at = case.delay_ms;
+    let done_at = case.delay_ms + case.tail_ms;
     for f in &resp.frames {
         let is_ws = !f.data.is_empty() && f.data.iter().all(|b| *b == b' ');
         if is_ws && f.at_ms > done_at + if case.lazy_ms > 0 { 100 + case.lazy_ms } else { 0 } && case.lazy_ms == 0 {
@@ -541,8 +562,17 @@ pub fn run(ctx: &RunCtx) -> i32 {
         let d = delays_ref[j as usize];
         for (ei, error) in [None, Some("InternalError".to_owned()), Some("EntityTooSmall".to_owned()), Some("VerifCustomCode".to_owned())].into_iter().enumerate() {
             for lazy in [0u64, 30, 250] {
-                let case = KCase { delay_ms: d, seed: derive_seed(ctx.seed, "ka", j * 8 + ei as u64).to_string(), error: error.clone(), lazy_ms: lazy };
+                let case = KCase { delay_ms: d, seed: derive_seed(ctx.seed, "ka", j * 8 + ei as u64).to_string(), error: error.clone(), lazy_ms: lazy, yields: 0, tail_ms: 0, yields_first: 0 };
                 judge_keepalive(&rt, r, &case);
+                // a cooperative backend: it yields to the scheduler (Pending with an immediate wake-up, no time passes) before,
+                // in the middle of or at the end of its work
+                let mut g = Rng::new(derive_seed(ctx.seed, "ka-coop", j * 64 + ei as u64 * 8 + lazy));
+                for _ in 0..3 {
+                    let yields = 1 + g.below(3) as u8;
+                    let tail = if g.chance(1, 3) { *g.pick(&[1u64, 50, 100, 99, 101]) } else { 0 };
+                    let coop = KCase { yields, tail_ms: tail, yields_first: g.below(3) as u8, ..case.clone() };
+                    judge_keepalive(&rt, r, &coop);
+                }
             }
         }
     });
